@@ -126,6 +126,24 @@ Verdict(t, e) ==
            THEN <<"OrbitMember", e.via>>
            ELSE IF e.distinct /\ Cardinality({gs[k] : k \in DOMAIN gs}) # Len(gs) THEN <<"OrbitDistinct", e.via>>
            ELSE <<"ok", "">>
+    [] e.fn = "iso_graph_finder" ->
+         \* every relabelling of the base graph, one per permutation of the vertices
+         IF e.out.err # "" THEN <<"Raised", "iso_graph_finder">>
+         ELSE IF \E k \in DOMAIN e.out.graphs : ~GraphOK(n, e.out.graphs[k]) THEN <<"OutputIsGraph", "iso_graph_finder">>
+         ELSE IF Len(e.out.graphs) # Cardinality(Perms(n))
+                 \/ {GOf(n, e.out.graphs[k]) : k \in DOMAIN e.out.graphs} # {Relabel(G1, n, p) : p \in Perms(n)}
+              THEN <<"IsoFinderAll", "iso_graph_finder">>
+         ELSE <<"ok", "">>
+    [] e.fn = "iso_equal_check" ->
+         \* "is the base graph LC-equivalent to SOME graph isomorphic to g2": yes exactly when the orbit of the base meets
+         \* the isomorphism class of g2; the graph handed back is then such a graph, otherwise the base itself
+         LET G2 == FromEdges(n, e.g2) hit == \E H \in orb : Isomorphic(H, G2, n) IN
+         IF e.out.err # "" THEN <<"Raised", "iso_equal_check">>
+         ELSE IF ~GraphOK(n, e.out.graph) THEN <<"OutputIsGraph", "iso_equal_check">>
+         ELSE IF e.out.res # hit THEN <<"IsoEqualDecision", IF hit /\ e.dim >= 5 /\ ~e.connected THEN "disconnected-first-graph:solution-space-dim>=5" ELSE "iso_equal_check">>
+         ELSE IF e.out.res /\ ~(GOf(n, e.out.graph) \in orb /\ Isomorphic(GOf(n, e.out.graph), G2, n)) THEN <<"IsoEqualWitness", "iso_equal_check">>
+         ELSE IF ~e.out.res /\ GOf(n, e.out.graph) # G1 THEN <<"IsoEqualWitness", "iso_equal_check">>
+         ELSE <<"ok", "">>
     [] e.fn = "remove_iso" ->
          \* ins: a list of graphs on n vertices; out.graphs: the list remove_iso made of it - members of the input list,
          \* pairwise non-isomorphic, and every input graph isomorphic to one that was kept
